@@ -728,3 +728,106 @@ fn for_each_varblocks(
         }
     }
 }
+
+/// Verification hook H5 (property C16): entry points of the block transforms, for the generic
+/// path and for the path selected on this CPU. Nothing here is used by the decoder itself.
+#[cfg(jxl_oxide_verif)]
+pub mod verif {
+    use jxl_grid::{MutableSubgrid, SharedSubgrid};
+    use jxl_modular::ChannelShift;
+    use jxl_vardct::{BlockInfo, TransformType};
+
+    pub use super::dct_common::DctDirection;
+    use super::{dct_common, generic, impls};
+
+    /// Which implementation to run.
+    #[derive(Debug, Copy, Clone, PartialEq, Eq)]
+    pub enum Path {
+        /// `vardct::generic`
+        Generic,
+        /// what `impls::transform_varblocks` dispatches to on this machine
+        Arch,
+    }
+
+    /// Name of the path `Path::Arch` resolves to.
+    pub fn arch_name() -> &'static str {
+        #[cfg(target_arch = "x86_64")]
+        {
+            if std::arch::is_x86_feature_detected!("sse4.1") {
+                "x86_64-sse4.1"
+            } else {
+                "x86_64-sse2"
+            }
+        }
+        #[cfg(target_arch = "aarch64")]
+        {
+            "aarch64"
+        }
+        #[cfg(all(target_family = "wasm", target_feature = "simd128"))]
+        {
+            "wasm32-simd128"
+        }
+        #[cfg(not(any(
+            target_arch = "x86_64",
+            target_arch = "aarch64",
+            all(target_family = "wasm", target_feature = "simd128")
+        )))]
+        {
+            "generic"
+        }
+    }
+
+    /// The production entry point: LF injection followed by the inverse transform of every
+    /// varblock described by `block_info`, on all three channels.
+    pub fn transform_varblocks(
+        path: Path,
+        lf: &[SharedSubgrid<f32>; 3],
+        coeff_out: &mut [MutableSubgrid<'_, f32>; 3],
+        shifts_cbycr: [ChannelShift; 3],
+        block_info: &SharedSubgrid<BlockInfo>,
+    ) {
+        match path {
+            Path::Generic => generic::transform_varblocks(lf, coeff_out, shifts_cbycr, block_info),
+            Path::Arch => impls::transform_varblocks(lf, coeff_out, shifts_cbycr, block_info),
+        }
+    }
+
+    /// The per-type inverse transform alone (no LF injection) on one coefficient block.
+    /// On targets other than x86_64 `Path::Arch` runs the generic dispatch.
+    pub fn transform(path: Path, coeff: &mut MutableSubgrid<'_, f32>, dct_select: TransformType) {
+        #[cfg(target_arch = "x86_64")]
+        if path == Path::Arch {
+            super::x86_64::verif_transform(coeff, dct_select);
+            return;
+        }
+        let _ = path;
+        generic::verif_transform(coeff, dct_select);
+    }
+
+    /// The 2-D DCT driver alone, forward or inverse, any power-of-two width and height.
+    /// On targets other than x86_64 `Path::Arch` runs the generic driver.
+    pub fn dct_2d(path: Path, io: &mut MutableSubgrid<'_, f32>, direction: DctDirection) {
+        #[cfg(target_arch = "x86_64")]
+        if path == Path::Arch {
+            super::x86_64::verif_dct_2d(io, direction);
+            return;
+        }
+        let _ = path;
+        generic::dct_2d(io, direction);
+    }
+
+    /// `dct_common::sec_half(n)` (n a power of two, n >= 4).
+    pub fn sec_half(n: usize) -> &'static [f32] {
+        dct_common::sec_half(n)
+    }
+
+    /// `dct_common::scale_f(c, logb)`.
+    pub fn scale_f(c: usize, logb: usize) -> f32 {
+        dct_common::scale_f(c, logb)
+    }
+
+    /// `transform_common::AFV_BASIS`.
+    pub fn afv_basis() -> &'static [[f32; 16]; 16] {
+        &super::transform_common::AFV_BASIS
+    }
+}
